@@ -3273,4 +3273,230 @@ theorem old_exec (s : S1) (h : List Op) (hi : Inv s) (hp : proto s.status h = tr
     obtain ⟨hok, hi', hp'⟩ := thread s op rest hi hp
     exact ih _ hi' hp' (old_step s op hi hok old hh)
 
+/-! ## several logs in one logger: logs that do not drain a queue do not interfere -/
+
+/-- the rule leaves the shares alone (everything but streak and deck) -/
+def nodrain (l : Log) : Prop := l.rule ≠ .streak ∧ l.rule ≠ .deck
+
+theorem act_nodrain_world (w : World) (l : Log) (h : nodrain l) : (l.act w).1 = w := by
+  unfold Log.act
+  split
+  · rfl
+  · split <;> rfl
+  · rfl
+  · split
+    · rfl
+    · split <;> rfl
+  · split
+    · rfl
+    · split
+      · rfl
+      · split <;> rfl
+  · exact absurd ‹l.rule = Rule.streak› h.1
+  · exact absurd ‹l.rule = Rule.deck› h.2
+
+theorem actAll_map (w : World) (ls : List Log) (h : ∀ l ∈ ls, nodrain l ∧ (l.act w).2.2 = none) :
+    actAll w ls = (w, ls.map (fun l => (l.act w).2.1), none) := by
+  induction ls with
+  | nil => rfl
+  | cons l r ih =>
+    obtain ⟨hn, he⟩ := h l (by simp)
+    have hw := act_nodrain_world w l hn
+    have ih' := ih (fun x hx => h x (by simp [hx]))
+    unfold actAll
+    rcases ha : l.act w with ⟨w1, l1, e⟩
+    rw [ha] at hw he
+    simp only at hw he
+    subst hw he
+    simp only [ih', List.map_cons, ha]
+
+theorem prepareAll_map (w : World) (ls : List Log) (h : ∀ l ∈ ls, (l.prepare w).2 = none) :
+    prepareAll w ls = (ls.map (fun l => (l.prepare w).1), none) := by
+  induction ls with
+  | nil => rfl
+  | cons l r ih =>
+    have he := h l (by simp)
+    have ih' := ih (fun x hx => h x (by simp [hx]))
+    unfold prepareAll
+    rcases hp : l.prepare w with ⟨l1, e⟩
+    rw [hp] at he
+    simp only at he
+    subst he
+    simp only [ih', List.map_cons, hp]
+
+/-- the logger with several logs, seen as one single-log logger per log -/
+def Sys.single (s : Sys) (l : Log) : S1 := { world := s.world, log := l, status := s.status, alive := s.alive }
+
+/-- every log of the logger satisfies the single-log invariant and does not drain a queue -/
+def Multi (s : Sys) : Prop := s.alive = true ∧ ∀ l ∈ s.logs, Inv (s.single l) ∧ nodrain l
+
+theorem multi_send (s : Sys) (c : Ctl) (hm : Multi s) (hc : ctlOk s.status c = true) :
+    (s.send c).1 = { world := s.world, logs := s.logs.map (fun l => ((s.single l).send c).1.log),
+                     status := nextSt s.status c, alive := true } ∧
+    ∀ l ∈ s.logs, ((s.single l).send c).1.world = s.world ∧
+      ((s.single l).send c).1.status = nextSt s.status c ∧ ((s.single l).send c).1.alive = true := by
+  obtain ⟨ha, hall⟩ := hm
+  have hna : (!s.alive) = false := by simp [ha]
+  have hactok : openSt s.status = true → ∀ l ∈ s.logs, nodrain l ∧ (l.act s.world).2.2 = none := by
+    intro ho l hl
+    obtain ⟨hi, hn⟩ := hall l hl
+    exact ⟨hn, (act_ok s.world l hi.cfg (hi.opened ho) (hi.prep (Or.inl ho))).1⟩
+  cases c with
+  | ready =>
+    have hshape : ∀ l ∈ s.logs, ((s.single l).send .ready).1 = { s.single l with status := .readied } :=
+      fun l hl => send_shape (s.single l) .ready (hall l hl).1 hc
+    have hlogs : s.logs.map (fun l => ((s.single l).send .ready).1.log) = s.logs := by
+      rw [List.map_congr_left (g := fun l => l) (fun l hl => by rw [hshape l hl]; rfl)]
+      simp
+    refine ⟨?_, fun l hl => ?_⟩
+    · simp only [Sys.send, ha, Bool.not_true, Bool.false_eq_true, if_false, nextSt, hlogs]
+    · rw [hshape l hl]; exact ⟨rfl, rfl, ha⟩
+  | abort =>
+    have hshape : ∀ l ∈ s.logs, ((s.single l).send .abort).1 =
+        { s.single l with log := (s.single l).log.close, status := .aborted } :=
+      fun l hl => send_shape (s.single l) .abort (hall l hl).1 hc
+    have hlogs : s.logs.map (fun l => ((s.single l).send .abort).1.log) = s.logs.map Log.close :=
+      List.map_congr_left (fun l hl => by rw [hshape l hl]; rfl)
+    refine ⟨?_, fun l hl => ?_⟩
+    · simp only [Sys.send, ha, Bool.not_true, Bool.false_eq_true, if_false, nextSt, hlogs]
+    · rw [hshape l hl]; exact ⟨rfl, rfl, ha⟩
+  | run =>
+    have ho : openSt s.status = true := hc
+    have hshape : ∀ l ∈ s.logs, ((s.single l).send .run).1 =
+        { s.single l with world := ((s.single l).log.act (s.single l).world).1,
+                          log := ((s.single l).log.act (s.single l).world).2.1, status := .running } :=
+      fun l hl => send_shape (s.single l) .run (hall l hl).1 hc
+    have hmap := actAll_map s.world s.logs (hactok ho)
+    have hlogs : s.logs.map (fun l => ((s.single l).send .run).1.log) =
+        s.logs.map (fun l => (l.act s.world).2.1) :=
+      List.map_congr_left (fun l hl => by rw [hshape l hl]; rfl)
+    refine ⟨?_, fun l hl => ?_⟩
+    · simp only [Sys.send, ha, Bool.not_true, Bool.false_eq_true, if_false, Sys.logAll, hmap, nextSt, hlogs]
+    · rw [hshape l hl]
+      exact ⟨act_nodrain_world _ _ (hall l hl).2, rfl, ha⟩
+  | stop =>
+    have hshape : ∀ l ∈ s.logs, ((s.single l).send .stop).1 =
+        (if (s.single l).status = .stopped then s.single l
+         else { s.single l with world := ((s.single l).log.act (s.single l).world).1,
+                                log := (((s.single l).log.act (s.single l).world).2.1).close,
+                                status := .stopped }) :=
+      fun l hl => send_shape (s.single l) .stop (hall l hl).1 hc
+    by_cases hst : s.status = .stopped
+    · have hlogs : s.logs.map (fun l => ((s.single l).send .stop).1.log) = s.logs := by
+        rw [List.map_congr_left (g := fun l => l) (fun l hl => by
+          rw [hshape l hl]; simp only [Sys.single, hst, if_true])]
+        simp
+      refine ⟨?_, fun l hl => ?_⟩
+      · simp only [Sys.send, ha, Bool.not_true, Bool.false_eq_true, if_false, hst, if_true, nextSt, hlogs]
+        cases s
+        simp only at ha hst ⊢
+        subst ha hst
+        rfl
+      · rw [hshape l hl]
+        simp only [Sys.single, hst, if_true, nextSt]
+        exact ⟨trivial, trivial, ha⟩
+    · have ho : openSt s.status = true := by
+        simp only [ctlOk, Bool.or_eq_true, beq_iff_eq] at hc
+        rcases hc with h | h
+        · exact h
+        · exact absurd h hst
+      have hmap := actAll_map s.world s.logs (hactok ho)
+      have hlogs : s.logs.map (fun l => ((s.single l).send .stop).1.log) =
+          (s.logs.map (fun l => (l.act s.world).2.1)).map Log.close := by
+        rw [List.map_map]
+        exact List.map_congr_left (fun l hl => by
+          rw [hshape l hl]; simp only [Sys.single, hst, if_false]; rfl)
+      refine ⟨?_, fun l hl => ?_⟩
+      · simp only [Sys.send, ha, Bool.not_true, Bool.false_eq_true, if_false, hst, Sys.logAll, hmap, nextSt, hlogs]
+      · rw [hshape l hl]
+        simp only [Sys.single, hst, if_false, nextSt]
+        exact ⟨act_nodrain_world _ _ (hall l hl).2, trivial, ha⟩
+  | start =>
+    have hshape : ∀ l ∈ s.logs, ((s.single l).send .start).1 =
+        { s.single l with world := ((startLog (s.single l)).act (s.single l).world).1,
+                          log := ((startLog (s.single l)).act (s.single l).world).2.1, status := .started } :=
+      fun l hl => send_shape (s.single l) .start (hall l hl).1 hc
+    have hprep : ∀ l ∈ s.logs.map Log.reopen, (l.prepare s.world).2 = none := by
+      intro l hl
+      rw [List.mem_map] at hl
+      obtain ⟨l0, hl0, rfl⟩ := hl
+      have := (startLog_facts (s.single l0) (hall l0 hl0).1).2.2.2
+      simp only [Sys.single] at this
+      rw [this]
+    have hpm := prepareAll_map s.world (s.logs.map Log.reopen) hprep
+    have hact : ∀ l ∈ (s.logs.map Log.reopen).map (fun l => (l.prepare s.world).1),
+        nodrain l ∧ (l.act s.world).2.2 = none := by
+      intro l hl
+      simp only [List.map_map, List.mem_map, Function.comp] at hl
+      obtain ⟨l0, hl0, rfl⟩ := hl
+      obtain ⟨hi, hn⟩ := hall l0 hl0
+      obtain ⟨f1, f2, f3, _⟩ := startLog_facts (s.single l0) hi
+      have hr := startLog_rule (s.single l0) hi
+      have hsl : (l0.reopen.prepare s.world).1 = startLog (s.single l0) := rfl
+      rw [hsl]
+      exact ⟨⟨by rw [hr]; exact hn.1, by rw [hr]; exact hn.2⟩, (act_ok s.world _ f1 f2 f3).1⟩
+    have ham := actAll_map s.world _ hact
+    have hlogs : s.logs.map (fun l => ((s.single l).send .start).1.log) =
+        ((s.logs.map Log.reopen).map (fun l => (l.prepare s.world).1)).map (fun l => (l.act s.world).2.1) := by
+      rw [List.map_map, List.map_map]
+      exact List.map_congr_left (fun l hl => by rw [hshape l hl]; rfl)
+    refine ⟨?_, fun l hl => ?_⟩
+    · simp only [Sys.send, ha, Bool.not_true, Bool.false_eq_true, if_false, hpm, Sys.logAll, ham, nextSt, hlogs]
+    · rw [hshape l hl]
+      obtain ⟨hi, hn⟩ := hall l hl
+      have hr := startLog_rule (s.single l) hi
+      exact ⟨act_nodrain_world _ _ ⟨by rw [hr]; exact hn.1, by rw [hr]; exact hn.2⟩, rfl, ha⟩
+
+/-- one step of the multi-log logger, log by log -/
+theorem multi_step (s : Sys) (op : Op) (hm : Multi s) (hok : ∀ c, op = .ctl c → ctlOk s.status c = true) :
+    (s.step op).1.logs = s.logs.map (fun l => ((s.single l).step op).1.log) ∧
+    (∀ l ∈ s.logs, (s.step op).1.single ((s.single l).step op).1.log = ((s.single l).step op).1) ∧
+    (s.step op).1.alive = true ∧
+    (s.step op).1.status = (match op with | .w _ => s.status | .ctl c => nextSt s.status c) := by
+  cases op with
+  | w o =>
+    refine ⟨by simp [Sys.step, S1.step, Sys.single], fun l _ => rfl, hm.1, rfl⟩
+  | ctl c =>
+    obtain ⟨h1, h2⟩ := multi_send s c hm (hok c rfl)
+    simp only [Sys.step, S1.step]
+    rw [h1]
+    refine ⟨rfl, fun l hl => ?_, rfl, rfl⟩
+    obtain ⟨w1, w2, w3⟩ := h2 l hl
+    generalize ((s.single l).send c).1 = X at w1 w2 w3
+    cases X
+    simp only at w1 w2 w3
+    subst w1 w2 w3
+    rfl
+
+theorem multi_exec (s : Sys) (h : List Op) (hm : Multi s) (hp : proto s.status h = true) :
+    (s.exec h).logs = s.logs.map (fun l => ((s.single l).exec h).log) := by
+  induction h generalizing s with
+  | nil => simp [Sys.exec, S1.exec, Sys.single]
+  | cons op rest ih =>
+    have hok : ∀ c, op = .ctl c → ctlOk s.status c = true := by
+      intro c hc; subst hc
+      simp only [proto, Bool.and_eq_true] at hp; exact hp.1
+    obtain ⟨m1, m2, m3, m4⟩ := multi_step s op hm hok
+    have hp' : proto (s.step op).1.status rest = true := by
+      rw [m4]
+      cases op with
+      | w o => exact hp
+      | ctl c => simp only [proto, Bool.and_eq_true] at hp; exact hp.2
+    have hm' : Multi (s.step op).1 := by
+      refine ⟨m3, ?_⟩
+      intro l' hl'
+      rw [m1, List.mem_map] at hl'
+      obtain ⟨l, hl, rfl⟩ := hl'
+      obtain ⟨hi, hn⟩ := hm.2 l hl
+      rw [m2 l hl]
+      exact ⟨(Inv_step (s.single l) op hi (by exact hok)).1, by
+        have := (step_rule (s.single l) op hi hok).1
+        exact ⟨by rw [this]; exact hn.1, by rw [this]; exact hn.2⟩⟩
+    simp only [Sys.exec]
+    rw [ih _ hm' hp', m1, List.map_map]
+    apply List.map_congr_left
+    intro l hl
+    simp only [Function.comp, S1.exec]
+    rw [m2 l hl]
+
 end Ioflo.LogRules
